@@ -323,7 +323,19 @@ def build_pool() -> list[str]:
         texts.add(b)
     texts.update(CARRIERS)
     texts.update(KEYWORD_NAMES)
+    texts.update(grammar_sentences())
     return sorted(t for t in texts if _ok_text(t))
+
+
+def grammar_sentences() -> list[str]:
+    """One short sentence per alternative of the working tree's grammar (see gramgen); empty if the grammar or the
+    generator cannot be loaded (that is C16's business, not the pool's)."""
+    try:
+        from . import gramgen
+
+        return gramgen.sentences()
+    except Exception:  # noqa: BLE001
+        return []
 
 
 def looks_like_expression(text: str) -> bool:
